@@ -106,6 +106,8 @@ type RT struct {
 	entered chan *ServerCall
 	Stray   []string // handler invocations nobody waited for
 	active  bool
+	// Drop cuts the connection between the two ends (scripts with a lost connection)
+	Drop func()
 }
 
 func NewRT() *RT { return &RT{entered: make(chan *ServerCall, 16)} }
@@ -209,14 +211,23 @@ func (rt *RT) Run(s *Script, method string, p Payloads, cl ClientSide, found fun
 	rt.mu.Lock()
 	rt.active = true
 	rt.mu.Unlock()
+	lost, lostEarly := false, false // the connection was lost; ... before the handler was entered
 	defer func() {
+		if lostEarly {
+			time.Sleep(OpTimeout / 100) // a request already on its way may still enter the handler
+		}
 		rt.mu.Lock()
 		rt.active = false
 		rt.mu.Unlock()
 		for {
 			select {
 			case sc := <-rt.entered:
-				found("extra-handler-run", fmt.Sprintf("handler %q was entered once more than the script says", sc.Method))
+				if lostEarly {
+					// the connection was lost while the request was on its way: the handler may or may not have been entered
+					lostEarly = false
+				} else {
+					found("extra-handler-run", fmt.Sprintf("handler %q was entered once more than the script says", sc.Method))
+				}
 				go sc.do(command{op: "return", outcome: "app"})
 			default:
 				return
@@ -262,9 +273,33 @@ func (rt *RT) Run(s *Script, method string, p Payloads, cl ClientSide, found fun
 			if st.OK() {
 				bad(k, "panic-as-ok", "the handler panicked, the caller got OK")
 			}
+		case "fail":
+			// the connection was lost before the handler had returned anything
+			if st.OK() {
+				bad(k, "ok-after-loss", "the connection was lost before the handler returned, the caller got OK (%d bytes)", len(b))
+			}
+		case "maybe-ok":
+			// the handler had returned OK before the connection was lost: its result, or a failure
+			if st.OK() && p.Resp != nil && !bytes.Equal(b, p.Resp) {
+				bad(k, "response-bytes", "after the loss of the connection the caller got OK with %v, the handler returned %v", b, p.Resp)
+			}
+		case "maybe-app":
+			if st.OK() {
+				bad(k, "ok-after-loss", "the handler returned (%s, %q) and the connection was lost, the caller got OK", AppCode, AppMessage)
+			}
 		}
 	}
 	for k, step := range s.Script {
+		if step.Who == "x" {
+			// the connection is lost
+			if rt.Drop == nil {
+				bad(k, "harness", "script with a lost connection, but nothing to cut")
+				return
+			}
+			lost, lostEarly = true, sc == nil
+			rt.Drop()
+			continue
+		}
 		if step.Who == "c" {
 			switch step.Op {
 			case "call":
@@ -424,6 +459,7 @@ func (rt *RT) Run(s *Script, method string, p Payloads, cl ClientSide, found fun
 			}
 		}
 	}
+	_ = lost
 	if !blocking {
 		if pn := safely(func() { cl.Free() }); pn != "" {
 			found("panic:client", "Free: "+pn)
